@@ -33,7 +33,13 @@ RULE = ("graphs: ladders of depth 5..60 whose rungs cycle through seven node "
         " mapper's documented exclusions); transformations: CopyMapper()(g) is"
         " g, never more distinct objects than given, one result object per "
         "shared node; with a duplicate: mappers that promise it raise the "
-        "collision error, deduplicate merges.  non-trivial = a node with "
+        "collision error, deduplicate merges.  Substitution oracle: every "
+        "placeholder / data wrapper in turn is replaced by a tagged copy "
+        "through map_and_copy - the original must be gone from the whole "
+        "result (every field of every node reached) and no equal-but-distinct"
+        " nodes may appear; 'merge' family: mapping placeholder b to a under "
+        "identical shared sub-graphs must give exactly the deduplicated graph "
+        "built over a alone.  non-trivial = a node with "
         "in-degree >= 2 through >= 2 different edge kinds or >= 2^10 paths; "
         "distinct by (graph description, mapper)")
 ASSUMPTIONS = [
@@ -412,6 +418,78 @@ def check_function(fname, g, info) -> Failure | None:
     return None
 
 
+def substitution_check(g, info) -> Failure | None:
+    """copying mappers reach every occurrence and keep the result free of
+    equal-but-distinct nodes: every input in turn is replaced by a tagged
+    copy through map_and_copy - afterwards the original must be gone from
+    the whole result and no duplicates may have appeared; on the 'merge'
+    family b is mapped to a and the result must be the graph built with a
+    alone, with as few nodes."""
+    import pytato as pt
+    from pvf import reflect
+    from pvf.usertags import PvfTag
+    try:
+        gd = pt.transform.deduplicate(g)
+    except Exception:  # noqa: BLE001
+        return None                      # (graphs with clashing duplicates)
+    nodes = list(reflect.walk(gd, into_functions=False).values())
+    leaves = [n for n in nodes if isinstance(n, (pt.Placeholder,
+                                                 pt.DataWrapper))]
+
+    def same(x, L):
+        return x is L or (isinstance(L, pt.Placeholder)
+                          and isinstance(x, pt.Placeholder) and x == L)
+    for L in leaves:
+        Lt = L.tagged(PvfTag("subst"))
+        try:
+            r = pt.transform.map_and_copy(
+                gd, lambda x, L=L, Lt=Lt: Lt if same(x, L) else x)
+        except Exception as e:  # noqa: BLE001
+            return Failure("substitution-exception",
+                           f"map_and_copy replacing {type(L).__name__} "
+                           f"'{getattr(L, 'name', None)}': "
+                           f"{type(e).__name__}: {e}", exc_site(e))
+        rn = list(reflect.walk(r, into_functions=False).values())
+        left = [n for n in rn if same(n, L)]
+        if left:
+            users = [type(n).__name__ for n in rn if any(
+                ch is left[0] for _, ch in reflect.children(
+                    n, into_functions=False))]
+            return Failure("substitution-not-applied-everywhere",
+                           f"after replacing {type(L).__name__} "
+                           f"'{getattr(L, 'name', None)}' everywhere the "
+                           f"original is still referenced by {users[:3]}",
+                           (users or ["?"])[0])
+        if _dup_among(rn):
+            return Failure("copy-created-duplicates",
+                           f"map_and_copy replacing {type(L).__name__} "
+                           f"'{getattr(L, 'name', None)}' returned equal but "
+                           "distinct nodes", "map_and_copy")
+    if "merge" in info:
+        b, a = info["merge"]
+        if b is not a:
+            r = pt.transform.map_and_copy(g, lambda x: a if x == b else x)
+            rn = list(reflect.walk(r).values())
+            if _dup_among(rn):
+                return Failure("copy-created-duplicates",
+                               "mapping placeholder b to a left equal but "
+                               "distinct nodes in the result (the two merged "
+                               "sides are not shared)", "merge")
+            want, _ = graphs.build(dict(info["case"]["desc"], merged=True))
+            want = pt.transform.deduplicate(want)
+            if r != want:
+                return Failure("merged-graph-differs", "mapping b to a does "
+                               "not give the graph built over a alone",
+                               "merge")
+            if len([n for n in rn if _array_like(n)]) != len(
+                    [n for n in reflect.walk(want).values()
+                     if _array_like(n)]):
+                return Failure("copy-created-duplicates",
+                               "merged graph has more nodes than the graph "
+                               "built over a alone", "merge")
+    return None
+
+
 def case_oracle(case, res: ShardResult | None = None):
     with warnings.catch_warnings():
         warnings.simplefilter("ignore")
@@ -435,6 +513,12 @@ def case_oracle(case, res: ShardResult | None = None):
                     # listed finding: keep searching behind it
                     deferred = deferred or f
                     continue
+                return f, info
+        if not case.get("mappers") and not case.get("functions"):
+            f = substitution_check(g, info)
+            if res is not None:
+                res.count("substitution_checks")
+            if f is not None:
                 return f, info
         for fname in (case.get("functions") or FUNCTIONS):
             f = check_function(fname, g, info)
@@ -466,12 +550,17 @@ def nontrivial(case) -> bool:
 @st.composite
 def cases(draw):
     kind = draw(st.sampled_from(["ladder", "ladder", "diamond", "edges", "edges",
-                                 "zoo", "zoo"]))
+                                 "zoo", "zoo", "merge"]))
     dup = draw(st.integers(0, 3)) == 0
     if kind == "ladder":
         return {"kind": "family", "desc": {
             "family": "ladder", "depth": draw(st.integers(5, 60)),
             "variant": draw(st.integers(0, 6)), "dup": dup,
+            "second_output": draw(st.booleans())}}
+    if kind == "merge":
+        return {"kind": "family", "desc": {
+            "family": "merge", "users": draw(st.integers(1, 4)),
+            "depth": draw(st.integers(1, 4)),
             "second_output": draw(st.booleans())}}
     if kind == "diamond":
         return {"kind": "family", "desc": {"family": "diamond",
